@@ -62,7 +62,6 @@ theorem setLemma_wf {rules : Rules} {v : Verb} {tb : Table} (htb : lookup v.tab 
 
 structure EnRows (tb : Table) : Prop where
   hasT : tb.hasT = true
-  keys : ∀ t : Tense, tb.keys.contains t.code = false
   /-- a row exists only for `b pp pr` (a string) and `p ps` (a string or six cells) -/
   row : ∀ (t : Tense) (r : Row), tb.row? t.code = some r →
     ((t = .b ∨ t = .pp ∨ t = .pr) ∧ ∃ x, r = .str x) ∨
@@ -82,22 +81,11 @@ theorem wfRowEn_elim {t : Tense} {r : Row} (h : wfRowEn t.code r = true) :
          obtain ⟨a, b, c, d, e, f, rfl⟩ := list_len6 hl
          exact Or.inr ⟨a, b, c, d, e, f, rfl⟩)
 
-theorem keysOK_elim {tb : Table} (h : tb.keysOK = true) (t : Tense) : tb.keys.contains t.code = false := by
-  unfold Table.keysOK at h
-  rw [List.all_eq_true] at h
-  cases hc : tb.keys.contains t.code with
-  | false => rfl
-  | true =>
-    have hm : t.code ∈ tb.keys := by simpa using hc
-    have := h _ hm
-    rw [ofCode_code] at this
-    simp at this
-
 theorem wfTableEn_elim {tb : Table} (h : wfTableEn tb = true) : EnRows tb := by
   unfold wfTableEn at h
   simp only [Bool.and_eq_true] at h
-  obtain ⟨⟨h1, h2⟩, h3⟩ := h
-  refine ⟨h1, keysOK_elim h2, ?_⟩
+  obtain ⟨h1, h3⟩ := h
+  refine ⟨h1, ?_⟩
   intro t r hr
   have hm := lookup_mem (show lookup t.code tb.rows = some r from hr)
   rw [List.all_eq_true] at h3
@@ -119,7 +107,7 @@ structure FrRows (tb : Table) : Prop where
 theorem wfTableFr_elim {tb : Table} (h : wfTableFr tb = true) : FrRows tb := by
   unfold wfTableFr at h
   simp only [Bool.and_eq_true] at h
-  obtain ⟨⟨⟨h1, _⟩, h3⟩, h4⟩ := h
+  obtain ⟨⟨h1, h3⟩, h4⟩ := h
   rw [List.all_eq_true] at h3 h4
   have shape : ∀ (t : Tense) (r : Row), tb.row? t.code = some r → wfRowFr t.code r = true := by
     intro t r hr
@@ -177,5 +165,103 @@ theorem wfTableFr_elim {tb : Table} (h : wfTableFr tb = true) : FrRows tb := by
       rw [ofCode_code] at hs
       simp only [List.mem_cons, List.not_mem_nil, or_false] at ht
       rcases ht with rfl | rfl | rfl | rfl | rfl | rfl | rfl | rfl | rfl | rfl <;> simp at hs
+
+/-! ### indexing six- and four-cell rows -/
+
+/-- the cell of a six-cell row for a person and number -/
+def pick6 {α} (a b c d e f : α) : Person → Num → α
+  | .p1, .s => a | .p2, .s => b | .p3, .s => c
+  | .p1, .p => d | .p2, .p => e | .p3, .p => f
+
+/-- the cell of a four-cell participle row for a number and gender -/
+def pick4 {α} (a b c d : α) : Num → Gender → α
+  | .s, .m => a | .s, .f => b | .p, .m => c | .p, .f => d
+
+theorem at6 (a b c d e f : Option Str) (pe : Person) (n : Num) :
+    Row.at (.list [a, b, c, d, e, f]) (idx6 pe n) = .ok (pick6 a b c d e f pe n) := by
+  cases pe <;> cases n <;> rfl
+
+theorem at4 (a b c d : Option Str) (n : Num) (g : Gender) :
+    Row.at (.list [a, b, c, d]) (ConjFr.idx4 n g) = .ok (pick4 a b c d n g) := by
+  cases n <;> cases g <;> rfl
+
+theorem idx4_pos (n : Num) (g : Gender) : (ConjFr.idx4 n g > 0) = (ConjFr.idx4 n g ≠ 0) := by
+  cases n <;> cases g <;> simp [ConjFr.idx4]
+
+/-! ### English: tenses without a row -/
+
+theorem noRowEn {tb : Table} (R : EnRows tb) {t : Tense}
+    (ht : t ≠ .p ∧ t ≠ .ps ∧ t ≠ .pr ∧ t ≠ .pp ∧ t ≠ .b) : tb.hasRow t.code = false := by
+  cases hrow : tb.row? t.code with
+  | none => simp [Table.hasRow, hrow]
+  | some r =>
+    rcases R.row t r hrow with ⟨h, _⟩ | ⟨h, _⟩
+    · rcases h with rfl | rfl | rfl <;> simp at ht
+    · rcases h with rfl | rfl <;> simp at ht
+
+/-! ### the surface model fails only with its fragment marker -/
+
+/-- the only error of the surface model is its fragment marker -/
+theorem elideLoopFr_error_aux (k : Nat) : ∀ (pl : Bool) (l : List Tok) (err : Crash), l.length ≤ k →
+    elideLoopFr pl l = .error err → err = .other := by
+  induction k with
+  | zero =>
+    intro pl l err hn h
+    match l, hn with
+    | [], _ => simp [elideLoopFr] at h
+  | succ k ih' =>
+    intro pl l err hn h
+    have ih : ∀ m, m ≤ k → ∀ (pl : Bool) (l : List Tok) {e2 : Crash}, elideLoopFr pl l = .error e2 → l.length = m →
+        e2 = .other := fun m hm pl l e2 hl hlen => ih' pl l e2 (by omega) hl
+    match l, hn with
+    | [], _ => simp [elideLoopFr] at h
+    | [a], _ => simp [elideLoopFr] at h
+    | a :: b :: rest, hn =>
+      unfold elideLoopFr at h
+      split at h
+      · -- previous token is `lier`
+        cases hr : elideLoopFr a.lier (b :: rest) with
+        | error e2 =>
+          have := ih (b :: rest).length (by simp at hn ⊢; omega) a.lier (b :: rest) hr rfl
+          simp [hr, bind, Except.bind] at h
+          rw [← h]; exact this
+        | ok r => simp [hr, bind, Except.bind, pure, Except.pure] at h
+      · split at h
+        · split at h
+          · cases hr : elideLoopFr b.lier rest with
+            | error e2 =>
+              have := ih rest.length (by simp at hn ⊢; omega) b.lier rest hr rfl
+              simp [hr, bind, Except.bind] at h
+              rw [← h]; exact this
+            | ok r => simp [hr, bind, Except.bind, pure, Except.pure] at h
+          · split at h
+            · cases h; rfl
+            · split at h
+              · cases h; rfl
+              · cases hr : elideLoopFr a.lier (b :: rest) with
+                | error e2 =>
+                  have := ih (b :: rest).length (by simp at hn ⊢; omega) a.lier (b :: rest) hr rfl
+                  simp [hr, bind, Except.bind] at h
+                  rw [← h]; exact this
+                | ok r => simp [hr, bind, Except.bind, pure, Except.pure] at h
+        · cases hr : elideLoopFr a.lier (b :: rest) with
+          | error e2 =>
+            have := ih (b :: rest).length (by simp at hn ⊢; omega) a.lier (b :: rest) hr rfl
+            simp [hr, bind, Except.bind] at h
+            rw [← h]; exact this
+          | ok r => simp [hr, bind, Except.bind, pure, Except.pure] at h
+
+theorem elideLoopFr_error (pl : Bool) (l : List Tok) (err : Crash) (h : elideLoopFr pl l = .error err) :
+    err = .other := elideLoopFr_error_aux l.length pl l err (Nat.le_refl _) h
+
+theorem surfaceFr_error (toks : List Tok) (err : Crash) (h : surfaceFr toks = .error err) : err = .other := by
+  unfold surfaceFr at h
+  simp only [bind, Except.bind, pure, Except.pure] at h
+  split at h
+  · cases h
+  · split at h
+    · next hh => cases h; exact elideLoopFr_error _ _ _ hh
+    · cases h
+
 
 end Pyrealb.Conj
